@@ -72,6 +72,16 @@ func runFieldList() {
 	tier := os_Arg(2, "quick")
 	seed, _ := strconv.ParseUint(os_Arg(3, "1"), 10, 64)
 	rng := splitmix{seed}
+	// an application that prints a name for every raw bit asks for the names of undocumented positions too: asking must
+	// not change what counts as a documented field afterwards (the tables were dumped by another process before this one)
+	for i := 0; i < 256; i++ {
+		_ = veconst.InverterOffReason(i).String()
+		_ = veconst.SolarOffReason(i).String()
+		_ = veconst.InverterWarningReason(i).String()
+		_ = veconst.InverterOffReason(i).Idx()
+		_ = veconst.SolarOffReason(i).Idx()
+		_ = veconst.InverterWarningReason(i).Idx()
+	}
 	// a product and register for each factory
 	type target struct {
 		fl   lists.FieldListFactory
